@@ -605,7 +605,7 @@ def _decl_class(st, name, cdef, rsym, rname, quantum):
         items = reg_items(st, cdef)
         st.n_cdefs = getattr(st, "n_cdefs", 0) + 1
         if st.n_cdefs % 2 and all(isinstance(e, int) and e != 0 for _, e in items) \
-                and items[0][1] > 0:
+                and items[0][1] > 0 and all(isinstance(c, type) for c, _ in items):
             # written with the operators of the quantity classes, as in the
             # documentation: Length / Duration ** 2, Mass * Length, Length ** 2
             c0, e0 = items[0]
@@ -759,6 +759,20 @@ def _q_bin(st, o, a, b, d):
     with dflt_mode(d):
         qa, qb = qty_of(a), qty_of(b)
         before = (qa.amount, qa.unit, qb.amount, qb.unit)
+        if o in ("iadd", "isub"):
+            # augmented assignment: `s = a; s += b` gives the sum, and every
+            # later sum that uses `a` again is the sum of a's value
+            s = qa
+            if o == "iadd":
+                s += qb
+                later = qa + qb
+            else:
+                s -= qb
+                later = qa - qb
+            if show_val(later) != show_val(s) or before != (qa.amount, qa.unit, qb.amount, qb.unit):
+                return (f"ok aliased: s={show_val(s)} later={show_val(later)} "
+                        f"a={show_val(qa)}")
+            return "ok " + show_val(s)
         r = _BIN[o](qa, qb)
         assert before == (qa.amount, qa.unit, qb.amount, qb.unit)
         if isinstance(r, bool):
